@@ -161,6 +161,7 @@ private def baseReq : Req Int where
   returnHits := true
   explain := false
   profile := false
+  hook := false
   nseg := 1
   cursor := none
   rescore := none
